@@ -2,3 +2,4 @@ import EpsicDriver.Proto
 import EpsicDriver.OpsAlg
 import EpsicDriver.OpsAlias
 import EpsicDriver.OpsLin
+import EpsicDriver.OpsEst
